@@ -186,12 +186,112 @@ def rule_rank_one(repo, rep):
   rep.floor('rank-one update sites in ITML', n_upd, 2)
 
 
+# --------------------------------------------------- Bregman update formulas
+from ..ratfunc import Rat, LinM, eval_expr
+
+
+def rule_update_formulas(repo, rep):
+  R = 'R-FORM:itml-bregman-step'
+  rep.rule(R, 'the step, rank-one coefficient and slack update of both '
+           'projection loops equal the documented cyclic Bregman projection '
+           '(delta = +1 similar, -1 dissimilar): alpha = min(lambda_i, delta '
+           'gamma/(gamma+1) (1/p - 1/xi_i)), beta = delta alpha / (1 - delta '
+           'alpha p), xi_i <- gamma xi_i / (gamma + delta alpha xi_i), as '
+           'rational functions of (p, xi_i, alpha, gamma)')
+  f = repo.get_func('itml._BaseITML._fit')
+  loops = [n for n in ast.walk(f.node) if isinstance(n, ast.For) and
+           any(isinstance(s, ast.AugAssign) and
+               ast.unparse(s.target) == 'A' for s in n.body)]
+  if len(loops) != 2:
+    rep.unknown(R, 'itml._BaseITML._fit', site(f), '%d projection loops'
+                % len(loops))
+    return
+  # gamma_proj
+  gp = [v for (n, v) in guards.assignments(f.node, 'gamma_proj')
+        if v is not None]
+  gp_ok = False
+  if gp and isinstance(gp[0], ast.IfExp):
+    v = eval_expr(gp[0].orelse, {'gamma': 'g'}, {})
+    one = eval_expr(gp[0].body, {'gamma': 'g'}, {})
+    g = Rat.sym('g')
+    cond = ast.unparse(gp[0].test)
+    gp_ok = isinstance(v, Rat) and v == g / (g + Rat.const(1)) and \
+        isinstance(one, Rat) and one == Rat.const(1) and \
+        cond in ('gamma is np.inf', 'gamma == np.inf', 'np.isinf(gamma)')
+  rep.add(R, 'itml._BaseITML._fit:gamma_proj', 'derived' if gp_ok else
+          'refuted', site(f), '' if gp_ok else 'gamma_proj is %s, documented '
+          'gamma / (gamma + 1) (1 when gamma is inf)'
+          % (ast.unparse(gp[0]) if gp else None))
+  for li, loop in enumerate(sorted(loops, key=lambda n: n.lineno)):
+    delta = Rat.const(1 if li == 0 else -1)
+    tag = 'similar' if li == 0 else 'dissimilar'
+    stm = {}
+    for s in loop.body:
+      if isinstance(s, ast.Assign):
+        stm[ast.unparse(s.targets[0])] = s
+    bname = [k for k in stm if k.endswith('_bhat[i]')]
+    if 'alpha' not in stm or 'beta' not in stm or 'wtw' not in stm or \
+            not bname:
+      rep.unknown(R, 'itml._BaseITML._fit:%s' % tag, site(f, loop),
+                  'statements of the projection step not recognised')
+      continue
+    bh = bname[0]
+    scal = {'wtw': 'p', bh: 'xi', 'gamma_proj': 'gp', 'gamma': 'g',
+            'alpha': 'a'}
+    p_, xi, gp_, g_, a_ = (Rat.sym(x) for x in ('p', 'xi', 'gp', 'g', 'a'))
+    one = Rat.const(1)
+    # alpha = min(lambda, step)
+    av = stm['alpha'].value
+    step = None
+    if isinstance(av, ast.Call) and ast.unparse(av.func) == 'min' and \
+            len(av.args) == 2:
+      step = eval_expr(av.args[1], scal, {})
+    want = delta * gp_ * (one / p_ - one / xi)
+    if step is None:
+      rep.unknown(R, 'itml._BaseITML._fit:%s:alpha' % tag,
+                  site(f, stm['alpha']), 'step not derivable')
+    else:
+      rep.add(R, 'itml._BaseITML._fit:%s:alpha' % tag,
+              'derived' if step == want else 'refuted', site(f, stm['alpha']),
+              '' if step == want else 'projection step is %r, documented %r'
+              % (step, want),
+              sample=dict(rule=R, loop=tag, step=repr(step)))
+    bv = eval_expr(stm['beta'].value, scal, {})
+    wantb = delta * a_ / (one - delta * a_ * p_)
+    if not isinstance(bv, Rat):
+      rep.unknown(R, 'itml._BaseITML._fit:%s:beta' % tag,
+                  site(f, stm['beta']), 'beta not derivable')
+    else:
+      rep.add(R, 'itml._BaseITML._fit:%s:beta' % tag,
+              'derived' if bv == wantb else 'refuted', site(f, stm['beta']),
+              '' if bv == wantb else 'beta is %r, documented %r' % (bv, wantb))
+    xv = eval_expr(stm[bh].value, scal, {})
+    wantx = g_ * xi / (g_ + delta * a_ * xi)
+    if not isinstance(xv, Rat):
+      rep.unknown(R, 'itml._BaseITML._fit:%s:slack' % tag, site(f, stm[bh]),
+                  'slack update not derivable')
+    else:
+      rep.add(R, 'itml._BaseITML._fit:%s:slack' % tag,
+              'derived' if xv == wantx else 'refuted', site(f, stm[bh]),
+              '' if xv == wantx else 'slack update is %r, documented %r'
+              % (xv, wantx))
+    wt = ast.unparse(stm['wtw'].value)
+    ok = wt in ('v.dot(A).dot(v)', 'np.dot(v, A).dot(v)', 'v @ A @ v',
+                'np.dot(np.dot(v, A), v)', 'A.dot(v).dot(v)')
+    rep.add(R, 'itml._BaseITML._fit:%s:p' % tag, 'derived' if ok else
+            'unknown', site(f, stm['wtw']), '' if ok else 'p = %s not '
+            'recognised as v^T A v' % wt)
+
+
 def check(repo, rep, tier):
   rule_dual_nonneg(repo, rep)
   rule_rank_one(repo, rep)
+  rule_update_formulas(repo, rep)
   # strictly PD prior required at the call site (shared with C20)
   R = 'R-TABLE:strict-pd-call-sites'
   before = len(rep.obs)
   c20.rule_strict_sites(repo, rep)
   rep.obs[before:] = [o for o in rep.obs[before:]
                       if o['construct'].startswith('ITML')]
+
+
